@@ -12,10 +12,16 @@ EXTENDS Expr, Json, IOUtils, TLCExt
 Recs == ndJsonDeserialize(IOEnv.TRACE_FILE)
 VARIABLE i
 
+\* equality of two rationals without cross-multiplying (TLC integers are 32-bit: n1 * d2 overflows for long numerals)
+RECURSIVE TGcd(_, _)
+TGcd(a, b) == IF b = 0 THEN a ELSE TGcd(b, a % b)
+SameRat(a, b) == LET ga == TGcd(IF a.n < 0 THEN -a.n ELSE a.n, a.d)
+                     gb == TGcd(IF b.n < 0 THEN -b.n ELSE b.n, b.d) IN
+                 a.n \div ga = b.n \div gb /\ a.d \div ga = b.d \div gb
 RECURSIVE Agree(_, _)
 Agree(s, o) ==
   CASE s.t = "bool" -> o.t = "bool" /\ o.v = s.v
-    [] s.t = "num" -> o.t = "num" /\ s.n * o.d = o.n * s.d /\ s.f = o.f
+    [] s.t = "num" -> o.t = "num" /\ SameRat(s, o) /\ s.f = o.f
     [] s.t = "str" -> o.t = "str" /\ o.v = s.v
     [] s.t = "date" -> o.t = "date" /\ o.v = s.v
     [] s.t = "none" -> o.t = "none"
